@@ -439,6 +439,19 @@ def process_model(model_prop: ModelProperty, *, schemas: Schemas, config: Config
     Returns:
         Either the updated `schemas` input or a `PropertyError` if something went wrong.
     """
+    # A copy of a registered model (made when the model is reached through a single-reference wrapper) describes the same
+    # class: it takes over the property data of that model instead of building the model's inline classes a second time
+    original = schemas.classes_by_name.get(model_prop.class_info.name)
+    if isinstance(original, ModelProperty) and original is not model_prop and original.data is model_prop.data:
+        if original.required_properties is None or original.optional_properties is None:
+            return PropertyError(detail=f"{original.class_info.name} was not processed yet", data=model_prop.data)
+        object.__setattr__(model_prop, "required_properties", original.required_properties)
+        object.__setattr__(model_prop, "optional_properties", original.optional_properties)
+        model_prop.set_relative_imports(original.relative_imports or set())
+        model_prop.set_lazy_imports(original.lazy_imports or set())
+        object.__setattr__(model_prop, "additional_properties", original.additional_properties)
+        return schemas
+
     data_or_err, schemas = _process_property_data(
         data=model_prop.data,
         schemas=schemas,
